@@ -177,8 +177,9 @@ Fixpoint aouts_bad (ops : list aop) (m o : list aout) (idx : nat) : list nat :=
   | _, _, _ => [idx]
   end.
 
-Definition alias_bad (ops : list aop) (obs : list aout) : list nat :=
-  aouts_bad ops (arun_out ops empty_astore) obs O.
+(* ds: the tenants (<> 0) whose alias directory exists in the scenario's data directory *)
+Definition alias_bad (ds : list tenant) (ops : list aop) (obs : list aout) : list nat :=
+  aouts_bad ops (arun_out (D := ds) ops empty_astore) obs O.
 
 (* a file of many scenarios: indices of the scenarios with at least one differing output *)
 Fixpoint scen_bad {A} (bad : A -> list nat) (l : list A) (idx : nat) : list nat :=
